@@ -421,7 +421,10 @@ def s_loop(F, R):
                 R.ok("S-loop", key + "/" + pp(x["iter"])[:40], "iterator over a finite collection")
             elif k == "While":
                 c = unblock(x["cond"])
-                ok = c.get("k") == "Binary" and c["op"] in ("Gt", "Lt", "Ge", "Le", "Ne")
+                while c.get("k") == "Unary" and c.get("op") == "Not":
+                    c = unblock(c["e"])
+                ok = (c.get("k") == "Binary" and c["op"] in ("Gt", "Lt", "Ge", "Le", "Ne", "Eq")) or \
+                    (c.get("k") == "Call" and (c["fn"].get("res") or c["fn"].get("def")) in F.fns and c.get("ty") == "bool")
                 R.check(ok, "S-loop", key + "/" + pp(c)[:50],
                         "%s: loop condition `%s` is not a `remaining > accounted` counter loop" % (f["root"], pp(c)[:80]), where=loc(x))
             else:
@@ -488,7 +491,7 @@ def _bounded(F, e, b, f, depth=0, seen=()):
     ty = _err_free_ty(e).lstrip("&")
     if ty in ("u8", "u16"):
         return True, "a %s" % ty
-    if depth > 4:
+    if depth > 12:
         return False, "provenance too deep"
     k = e.get("k")
     if k == "Field" and e.get("name") == "remaining_len" and (e.get("adt") or "").endswith("::Header"):
@@ -524,7 +527,16 @@ def _bounded(F, e, b, f, depth=0, seen=()):
                 return False, "%s is updated by %s" % (e["var"].get("name"), pp(n)[:60])
         init = _resolve_let(b, e)
         if init is not e:
-            return _bounded(F, init, b, f, depth + 1, seen)
+            return _all_tails_bounded(F, init, None, b, f, depth, seen)
+        # bound by a tuple pattern: `let (x, rest) = match .. { .. => (a, r1), .. => (b, r2) }`
+        for n in walk_all(b):
+            if n.get("k") == "Block":
+                for st in n.get("stmts", []):
+                    if st.get("k") == "Let" and st.get("init") is not None and st["pat"].get("k") == "Leaf":
+                        for sub in st["pat"].get("subs", []):
+                            q = sub["pat"]
+                            if q.get("k") == "Binding" and q["var"]["id"] == vid:
+                                return _all_tails_bounded(F, st["init"], int(sub["idx"]), b, f, depth, seen)
         # a parameter: every call site in the crate passes a bounded expression
         params = [(i, p) for i, p in enumerate(q for q in f["thir"]["params"] if q.get("pat") is not None)
                   if p["pat"].get("k") == "Binding" and p["pat"]["var"]["id"] == vid]
@@ -544,6 +556,41 @@ def _bounded(F, e, b, f, depth=0, seen=()):
                 return True, "parameter bounded at its %d call sites" % sites
             return False, "parameter %s without call sites in the crate" % e["var"].get("name")
     return False, "%s is not derived from a u16 length or the remaining length" % pp(e)[:80]
+
+
+def _tails(e):
+    """The expressions whose value an expression can evaluate to (through blocks, match arms and if branches)."""
+    e = unblock(strip(e))
+    k = e.get("k")
+    if k == "Match":
+        out = []
+        for arm in e["arms"]:
+            out += _tails(arm["body"])
+        return out
+    if k == "If":
+        return _tails(e["then"]) + (_tails(e["else"]) if e.get("else") else [])
+    if k == "Block":
+        return _tails(e["expr"]) if e.get("expr") is not None else []
+    if k in ("Return", "Break", "Continue") or e.get("ty") == "!":
+        return []
+    return [e]
+
+
+def _all_tails_bounded(F, init, idx, b, f, depth, seen):
+    tails = _tails(init)
+    if not tails:
+        return False, "no value"
+    why = ""
+    for t in tails:
+        if idx is not None:
+            t = unblock(strip(t))
+            if t.get("k") != "Tuple" or idx >= len(t["items"]):
+                return False, "`%s` is not a tuple value" % pp(t)[:60]
+            t = t["items"][idx]
+        okk, why = _bounded(F, t, b, f, depth + 1, seen)
+        if not okk:
+            return False, why
+    return True, why
 
 
 def s_alloc(F, R):
